@@ -81,7 +81,7 @@ class RefProgram:
         return out
 
     def full(self, cbid):
-        return f"{self.name}/{cbid}"
+        return self.prog["cbs"][cbid].get("full") or f"{self.name}/{cbid}"
 
 
 class _Names(dict):
